@@ -9,7 +9,7 @@ Three oracles over sentinel documents, per format (html, latex, beamer, memoir, 
 import re
 from html.parser import HTMLParser
 import xml.parsers.expat as expat
-from lib import core, gendoc, slots, drv as D
+from lib import core, gen, gendoc, slots, drv as D
 
 ID = 'C04'
 FORMATS = ['html', 'latex', 'beamer', 'memoir', 'fodt', 'opml']
@@ -311,6 +311,45 @@ def work(job):
     return r
 
 
+SENT = re.compile(r'zq(\d+)x')
+
+
+def work_repeat(job):
+    """conservation at scale: N copies of one small block, every copy's sentinel exactly as often as in the source and in source order"""
+    seed, ui, n = job
+    r = core.JobResult()
+    unit = gen.REPEAT_UNITS[ui]
+    if unit[2] == 'html-only' or unit[0] in ('abbreviation',):
+        return r
+    name, src, _ = gen.repeated_blocks(unit=unit, n=n)
+    with core.Session(r, timeout=60.0) as s:
+        for fname in FORMATS:
+            fmt = D.FMT[fname]
+            rq = D.req_to_json('asan', 'CONVERT', fmt, EXT, 0, 1 | (1 << 4), [src])
+            rep = s.call('asan', 'CONVERT', fmt, EXT, 0, 1 | (1 << 4), [src], crash_is_violation=False)
+            r.evaluations += 1
+            if rep is None or rep.status:
+                continue
+            out = rep.out.decode('utf-8', 'replace')
+            seen = [int(x) for x in SENT.findall(out)]
+            first = []
+            have = set()
+            for x in seen:
+                if x not in have:
+                    have.add(x)
+                    first.append(x)
+            r.stats['repeated_block_renderings_checked'] += 1
+            missing = [i for i in range(n) if i not in have]
+            if missing:
+                r.violate('lost:repeat:%s:%s' % (fname, name), '%d x %s in %s: the text of %d copies is missing (first: copy %d)' % (n, name, fname, len(missing), missing[0]),
+                          dict(requests=[rq]), 'unit: ' + core.show(unit[1], 100))
+            elif first != sorted(first) and fname != 'opml':
+                r.violate('order:repeat:%s:%s' % (fname, name), '%d x %s in %s: copies are not in source order' % (n, name, fname), dict(requests=[rq]), 'unit: ' + core.show(unit[1], 100))
+        r.distinct.add(core.h64('rep', name, n))
+        r.sets['repeated_units'].add('%s x %d' % (name, n))
+    return r
+
+
 def main():
     chk = core.Check(ID)
     n = chk.scale(12000, 200000)
@@ -322,4 +361,6 @@ def main():
                        'allowed escaped forms per format are taken from the format\'s own rules (XML entities; LaTeX control sequences listed in LATEX_ESC)']
     chunk = max(20, n // 64)
     chk.run_jobs(work, [(chk.seed, lo, min(n, lo + chunk)) for lo in range(0, n, chunk)])
+    counts = [1100, 2500] if not chk.thorough else [999, 1000, 1001, 1100, 2500, 5000]
+    chk.run_jobs(work_repeat, [(chk.seed, ui, k) for ui in range(len(gen.REPEAT_UNITS)) for k in counts])
     return chk.finish()
